@@ -336,6 +336,30 @@ func TestVerifH8(t *testing.T) {
 			vt.Stat("h8.sequence." + kind)
 		}
 	}
+	// real sockets: the generator advertises RelayAddress but must leave the socket's own address alone (the address object
+	// returned by LocalAddr belongs to the socket; rewriting it in place makes the socket report the wrong local address)
+	{
+		base, _ := stdnet.NewNet()
+		pub := net.ParseIP("203.0.113.9")
+		st := &RelayAddressGeneratorStatic{RelayAddress: pub, Address: "127.0.0.1", Net: base}
+		pr := &RelayAddressGeneratorPortRange{RelayAddress: pub, Address: "127.0.0.1", MinPort: 42100, MaxPort: 42199, MaxRetries: 20, Net: base}
+		_ = pr.Validate()
+		for name, g := range map[string]RelayAddressGenerator{"static": st, "range": pr} {
+			if conn, a, err := g.AllocatePacketConn(AllocateListenerConfig{Network: "udp4"}); err == nil {
+				if la, ok := conn.LocalAddr().(*net.UDPAddr); !ok || !la.IP.Equal(net.ParseIP("127.0.0.1")) || !a.(*net.UDPAddr).IP.Equal(pub) {
+					vt.Alarm("generator-rewrites-socket-address", "%s generator (udp4): advertised %v, the relay socket now reports local address %v (bound to 127.0.0.1)", name, a, conn.LocalAddr())
+				}
+				_ = conn.Close()
+			}
+			if ln, a, err := g.AllocateListener(AllocateListenerConfig{Network: "tcp4"}); err == nil {
+				if la, ok := ln.Addr().(*net.TCPAddr); !ok || !la.IP.Equal(net.ParseIP("127.0.0.1")) || !a.(*net.TCPAddr).IP.Equal(pub) {
+					vt.Alarm("generator-rewrites-socket-address", "%s generator (tcp4): advertised %v, the relay listener now reports address %v (bound to 127.0.0.1)", name, a, ln.Addr())
+				}
+				_ = ln.Close()
+			}
+		}
+		vt.Stat("h8.socket-address")
+	}
 	// real loopback sockets: two live allocations must never share a relay port
 	for _, network := range []string{"udp4", "tcp4"} {
 		base, _ := stdnet.NewNet()
